@@ -34,10 +34,10 @@ COMPONENTS = {'real': ['bespokeasm (whole package) through the CLI entry point',
               'model': ['props/c09.py:SubstModel (whole-word, fixpoint, cycle-rejecting substitution)']}
 
 PDIR = '/sim/p'
-NAMES = ['AB', 'ABC', 'XAB', 'A_B', 'AB1', 'BA', 'B1', 'CC', 'Ab', 'cc', 'b1', 'ADH', 'b10']
+NAMES = ['AB', 'ABC', 'XAB', 'A_B', 'AB1', 'BA', 'B1', 'CC', 'Ab', 'cc', 'b1', 'ADH', 'b10', '\u0394t', '\u00b5s']
 # constants whose names contain symbol names as prefix / suffix / infix, or equal a name that may become a symbol later
 CONST_NAMES = ['XABY', 'ABX', 'Q_AB', 'AB1', 'BA', 'ABCD', 'CCC', 'B12', 'ZA_B', 'ab', 'aB', 'Cc', 'ba']
-WORD = re.compile(r'\b[A-Za-z_]\w+\b')
+WORD = re.compile(r'\b[^\W\d]\w+\b')       # a letter (any script) or '_', then word characters
 
 
 class Reject(Exception):
@@ -230,12 +230,21 @@ def world_for(case, lines):
         argv += ['-D', (' ' if sp == 2 else '') + (n if v == '' else f'{n}{eq}{v}')]
     for raw in case.get('cli_raw', []):
         argv += ['-D', raw]
+    text = ('\r\n' if case.get('crlf') else '\n').join(
+        lines + ['#unmute'] * sum(1 for x in lines if x == '#mute') + ['  .byte $EE']) + '\n'
+    env_syms = {}
+    if case.get('cli_via_env') and case['cli_symbols'] and not case.get('cli_raw'):
+        # the command line's documented environment form (click auto_envvar_prefix): same definitions, no -D
+        vals = [n if v == '' else f'{n}={v}' for n, v in case['cli_symbols'].items()]
+        if all(' ' not in x for x in vals):
+            env_syms = {'BESPOKEASM_COMPILE_MACRO_SYMBOL': ' '.join(vals)}
+            argv = [a for i, a in enumerate(argv) if not (a == '-D' or (i > 0 and argv[i - 1] == '-D'))]
     return {'files': {f'{PDIR}/isa.yaml': gen.isa_text(isa_for(case['pre_symbols']), 'yaml'),
-                      f'{PDIR}/main.asm': ('\r\n' if case.get('crlf') else '\n').join(
-                          lines + ['#unmute'] * sum(1 for x in lines if x == '#mute') + ['  .byte $EE']) + '\n'},
+                      f'{PDIR}/main.asm': text.encode('utf-8').decode('latin-1')},      # stored as UTF-8 bytes
             'argv': argv, 'cwd': PDIR, 'step_budget': 3_000_000, 'set_seed': case.get('set_seed'),
             # environment variables named like hex numbers / compilers: `$FC` in a value is a hex literal, not a variable
-            'env': {'HOME': '/sim/home', 'FC': '10', 'F77': 'gfortran', 'CC': 'cc', 'AB': '77', 'BA': '5'}}
+            'env': dict({'HOME': '/sim/home', 'FC': '10', 'F77': 'gfortran', 'CC': 'cc', 'AB': '77', 'BA': '5'},
+                        **env_syms)}
 
 
 def run_history(case, stats=None):
@@ -390,6 +399,7 @@ def make_machine(stats, box):
             self.case['pre_symbols'] = dict(pre)
             self.case['cli_symbols'] = dict(cli)
             self.case['crlf'] = (len(pre) + len(cli)) % 3 == 2
+            self.case['cli_via_env'] = len(cli) > 0 and (len(pre) + sum(map(len, cli))) % 4 == 1
             self.case['cli_spacing'] = (len(pre) * 2 + len(cli)) % 3       # blanks around '=' / before the name in -D
             self.model = SubstModel(dict(pre), dict(cli))
             stats['histories'] += 1
@@ -459,7 +469,8 @@ def make_machine(stats, box):
         def use_blind(self, e, d):
             self.do({'op': 'use', 'text': e, 'directive': d})
 
-        @rule(n=name, sv=st.sampled_from(['"ab"', '"a\\n"', '"x\\ty"', '"q\\\\z"', '"\\x41b"', '"A,B"', '"1 2"']))
+        @rule(n=name, sv=st.sampled_from(['"ab"', '"a\\n"', '"x\\ty"', '"q\\\\z"', '"\\x41b"', '"A,B"', '"1 2"', '"a  b"',
+                                             '"x\ty"', '"p   q  r"']))
         def define_string(self, n, sv):
             self.do({'op': 'define', 'name': n, 'value': sv})
 
